@@ -87,6 +87,7 @@ class Reach:
         self.counts = {}
         self.missing = []
         self.codes = {}
+        self._keep = []
         self.tool = None
         mon = getattr(sys, "monitoring", None)
         if mon is None:
@@ -96,13 +97,14 @@ class Reach:
             if code is None:
                 self.missing.append(a)
             else:
-                self.codes[code] = a
+                self.codes[id(code)] = a      # code objects compare by value: identical copy-pasted functions collide
+                self._keep.append(code)
                 self.counts[a] = 0
         try:
             self.tool = 3
             mon.use_tool_id(self.tool, "vt-reach")
             mon.register_callback(self.tool, mon.events.PY_START, self._cb)
-            for code in self.codes:
+            for code in self._keep:
                 mon.set_local_events(self.tool, code, mon.events.PY_START)
         except Exception:  # noqa
             self.tool = None
@@ -132,7 +134,7 @@ class Reach:
             return None
 
     def _cb(self, code, offset):
-        a = self.codes.get(code)
+        a = self.codes.get(id(code))
         if a is not None:
             self.counts[a] += 1
 
@@ -276,7 +278,10 @@ def supervise(pid, tier, seed):
     replays = []
     outroot = os.environ.get("VERIF_OUT", VERIF)
     rdir = os.path.join(outroot, "replays", pid)
-    for i, v in enumerate(real[:20]):
+    if os.path.isdir(rdir):
+        for fn in os.listdir(rdir):
+            os.unlink(os.path.join(rdir, fn))
+    for i, v in enumerate(real[:40]):
         os.makedirs(rdir, exist_ok=True)
         path = os.path.join(rdir, "%s-s%s-i%s-%d.json" % (v["kind"], seed, (v.get("case") or {}).get("index"), i))
         with open(path, "w") as f:
@@ -300,6 +305,11 @@ def supervise(pid, tier, seed):
         "shards": len(shards),
         "repo": os.environ.get("VERIF_REPO", "/repo"),
     }
+    vk = {}
+    for v in real:
+        k = "%s | %s" % (v["kind"], str(v["detail"]).split(":")[0][:90])
+        vk[k] = vk.get(k, 0) + 1
+    coverage["violation_summary"] = dict(sorted(vk.items(), key=lambda kv: -kv[1])[:60])
     ev = {"property_id": pid, "tier": tier, "seed": seed, "level": consts["LEVEL"], "coverage": coverage,
           "assumptions": consts.get("ASSUMPTIONS", []), "wall_s": round(time.time() - t0, 2),
           "violations": len(real), "verdict": "violated" if real else ("inconclusive" if inconclusive else "held")}
